@@ -293,7 +293,7 @@ pub fn tape_seed(seed: u64, k: u64) -> u64 {
 
 pub fn class_of(c: &FCase) -> String {
     let p1 = c.muts[0].path.as_ref().and_then(|p| p.get(1).copied());
-    let extra = if c.field.ends_with("[pair]") { ":pair" } else if c.field.ends_with(":bit") { ":bit" } else if c.field.ends_with(":mac") { ":mac" } else if c.field.ends_with("[paired]") { ":paired" } else { "" };
+    let extra = if c.field.ends_with("[chain]") { ":chain" } else if c.field.ends_with("[pair]") { ":pair" } else if c.field.ends_with(":bit") { ":bit" } else if c.field.ends_with(":mac") { ":mac" } else if c.field.ends_with("[paired]") { ":paired" } else { "" };
     let kind = c.muts[0].node.as_ref().map(|n| if n.changes_count() { n.name() } else { String::new() }).unwrap_or_default();
     format!("{}[{}]{}{}{}", c.label, p1.map(|x| x.to_string()).unwrap_or_default(), extra, if kind.is_empty() { "" } else { ":" }, kind)
 }
